@@ -17,6 +17,9 @@ CHECKS = {
  'C04': dict(technique=TECH,
    text='TLC checks every let/cofactor/compose/rename result against BoolFun!ComposeF (simultaneous substitution) for all functions of 3 variables x all 3^n partial assignments x all (n+1)^n renamings x sampled replacement tuples, all orders (4 variables sampled/thorough); Cofactor/Compose/VectorCompose/CopyRename of the model refine the contracts under TLC.',
    note=TRUST + 'Compose is sampled (seeded); cofactor/rename exhaustive to 3/4 variables.', design='7 (C04)'),
+ 'C05': dict(technique='explicit TLA+ specification of the token-level grammar (Expr.tla: spelling classes, precedence-climbing Parse, Meaning over BoolFun) evaluated by TLC on token lists whose renderings were given to the real add_expr; TLC judges each returned reference',
+   text='All "a op1 b op2 c" over the 13 binary spellings with negation/parenthesis variants (exhaustive), four-operand chains (sampled/all 13^3), binders in every operator context, random formulas with ite, constants, @n; each token list rendered three ways (white space, line breaks, both comment forms, minimal spacing) into dd.bdd and dd.autoref add_expr on managers holding all functions of 3-4 variables; TLC parses the token list itself and checks every rendering returns the reference of Meaning(Parse(tokens)); to_expr round trip for all functions of 3 variables (4 sampled/thorough).',
+   note=TRUST + 'The renderer and the tokeniser of to_expr output are trusted harness code; character-level lexing is not modelled.', design='7 (C05)'),
  'C06': dict(technique=TECH,
    text='Bounded-exhaustive TLC model checking of the transcribed find_or_add/ite/collect_garbage/swap algorithms (RefExact, CollectC, CacheSound, HeldSame, StepContract) over 2-3 variables; paths of that state graph and seeded random long histories are executed on the real dd.bdd.BDD and every recorded step (full node table, counts, the harness ledger of increfs) is judged by TLC: exact counts, exactly the reachable nodes after a collection, held references keep their meaning, witness calls after cache-clearing actions.',
    note=TRUST + 'The ledger of external references is the harness\'s own. Bounded: 2-3 variables depth<=7 in the model, 2-5 variables <=300 steps recorded.', design='7 (C06)'),
